@@ -268,6 +268,9 @@ fn update_head(encoding: ContentEncoding, head: &mut ResponseHead) {
     head.headers_mut()
         .append(header::VARY, HeaderValue::from_static("accept-encoding"));
 
+    // a length set for the uncoded body does not describe the coded one
+    head.headers_mut().remove(header::CONTENT_LENGTH);
+
     head.no_chunking(false);
 }
 
